@@ -13,6 +13,7 @@ exist only here):
   ("star",) ("qstar", table) ("exists", q) ("notexists", q) ("subq", q) ("insub", e, neg, q)
   ("anyall", all, e, op, q) ("funcx", name, distinct, args, extras) ("interval", s) ("array", es)
   ("subscript", e, idx) ("slice", e, lo, hi) ("neg", sign, e)   sign in "-" "+"  (unary minus / plus)
+  ("niladic", name)   CURRENT_DATE / CURRENT_TIME / CURRENT_TIMESTAMP / LOCALTIME / LOCALTIMESTAMP written without parentheses
 """
 import random
 
@@ -179,6 +180,7 @@ class Renderer:
         W = lambda s: T("?", s)
         Q = lambda q: [W(t) for t in self.sr(q)]
         if k == "neg": return [T("TyMinus" if e[1] == "-" else "TyPlus", e[1])] + R(6.5, e[2], 0)
+        if k == "niladic": return [T("TyIdent", e[1])]
         if k == "star": return [T("TyAsterisk", "*")]
         if k == "qstar": return [T("TyIdent", e[1]), T("TyPeriod", "."), T("TyAsterisk", "*")]
         if k == "exists": return [W("EXISTS"), LP] + Q(e[1]) + [RP]
@@ -293,6 +295,7 @@ class Prescriber:
         if k == "tuple": return node("TupleExpression", Expressions=[A(x) for x in e[1]])
         S = self.stmt_ast
         if k == "neg": return node("UnaryExpression", Operator=1 if e[1] == "-" else 0, Expr=A(e[2]))
+        if k == "niladic": return node("FunctionCall", Name=e[1])
         if k == "star": return node("Identifier", Name="*")
         if k == "qstar": return node("Identifier", Name="*", Table=e[1])
         if k == "exists": return node("ExistsExpression", Subquery=S(e[1]))
@@ -448,6 +451,7 @@ TABS = ["t", "u", "users", "o"]
 NUMS = ["0", "1", "2", "7", "42", "100", "3.14", "0.5", "1e3", "2.5E2", "007"]
 STRS = ["x", "hello", "it's", "", "a b", "%a_", "2024-01-01", "OR", "naïve", "(", "a''b"]
 PHS = ["$1", "$2", "@p", "@name"]
+NILADIC = ["CURRENT_DATE", "CURRENT_TIME", "CURRENT_TIMESTAMP", "LOCALTIME", "LOCALTIMESTAMP", "current_date", "Current_Timestamp"]
 FNAMES = ["COUNT", "SUM", "UPPER", "coalesce", "f", "NULLIF", "my_func", "LENGTH"]
 TYPES = [("INT", []), ("TEXT", []), ("VARCHAR", ["20"]), ("NUMERIC", ["10", "2"]), ("mytype", []), ("DECIMAL", ["8"])]
 
@@ -689,7 +693,9 @@ class StmtGen:
             return ("array", [rand_expr(r, 2) for _ in range(r.randrange(0, 3))])
         if k < 0.25:
             return ("subscript", ("ident", False, r.choice(IDENTS)), [("num", "1")] + ([("ident", False, "i")] if r.random() < 0.3 else []))
-        if k < 0.31:
+        if k < 0.27:
+            return ("niladic", r.choice(NILADIC))
+        if k < 0.33:
             # unary minus / plus: a signed atom, a signed operand inside arithmetic, a sign over a whole expression
             sg = r.choice(["-", "-", "+"])
             form = r.randrange(3)
